@@ -191,7 +191,23 @@ def gen_document(rng, path: str, *, hostile_ids: bool = False, stem_marker: floa
         for s in prods:
             sr = rx.createProduct()
             sr.setSpecies(s)
-            if rng.random() < 0.25:
+            if rng.random() < 0.12:
+                # a coefficient that is a quantity of its own: it starts at a value (attribute, or initial assignment) and
+                # follows a rate rule afterwards
+                srid = f"sq_{rx.getId()}_{s}"
+                sr.setId(srid)
+                sr.setConstant(False)
+                sr.setStoichiometry(rng.choice([1.5, 2.0, 0.75]))
+                if rng.random() < 0.6:
+                    ia_ = m.createInitialAssignment()
+                    ia_.setSymbol(srid)
+                    ia_.setMath(_math(f"1.5 * {rng.choice(params)}"))
+                    feats.add("initial_assignment_on_a_coefficient_under_a_rate_rule")
+                rr = m.createRateRule()
+                rr.setVariable(srid)
+                rr.setMath(_math(rng.choice(["0.25", f"0.1 * {rng.choice(params)}"])))
+                feats.add("coefficient_under_a_rate_rule")
+            elif rng.random() < 0.25:
                 # rule-defined stoichiometry
                 srid = f"sr_{rx.getId()}_{s}"
                 sr.setId(srid)
